@@ -20,6 +20,7 @@ import (
 	domainmatcher "github.com/IrineSistiana/mosproxy/internal/domain_matcher"
 	"github.com/IrineSistiana/mosproxy/internal/mlog"
 	"github.com/IrineSistiana/mosproxy/internal/pool"
+	"github.com/IrineSistiana/mosproxy/internal/verifhook"
 	"github.com/mitchellh/mapstructure"
 	"github.com/prometheus/client_golang/prometheus"
 	"github.com/prometheus/client_golang/prometheus/promhttp"
@@ -456,6 +457,10 @@ func (r *router) handleReqMsg(ctx context.Context, m *dnsmsg.Msg, rc *RequestCon
 
 // always returns a resp
 func (r *router) handleReq(ctx context.Context, q *dnsmsg.Question, rc *RequestContext) {
+	if verifhook.On {
+		verifhook.Ev("rt.req", r, q, rc)
+		defer func() { verifhook.Ev("rt.done", r, q, rc) }()
+	}
 	// Match rules
 	var matchedRule *rule
 	for i, rule := range r.rules {
@@ -470,6 +475,9 @@ func (r *router) handleReq(ctx context.Context, q *dnsmsg.Question, rc *RequestC
 		}
 		rc.Response.RuleIdx = i
 		matchedRule = rule
+		if verifhook.On {
+			verifhook.Ev("rt.rule", r, q, rc, i)
+		}
 		break
 	}
 
@@ -563,6 +571,9 @@ func (r *router) forward(
 		return nil, fmt.Errorf("failed to pack req, %w", err)
 	}
 	defer pool.ReleaseBuf(reqWire)
+	if verifhook.On {
+		verifhook.Ev("rt.fwd", r, q, upstream.tag, remoteAddr)
+	}
 
 	resp, err := upstream.Exchange(ctx, reqWire)
 	if err != nil {
